@@ -470,3 +470,133 @@ lemma(
     unstub=[f"{GEOM}:Geometry.to_crs"],
     note="data-flow of the real Geometry.to_crs over ghost collaborators: the argument of the projection (and of the date-line chopping) is the densified geometry",
 )
+
+
+# ---- Geometry.segmented: EVERY ring / line of EVERY part goes through densify(resolution), whatever the size of the geometry -----------
+
+
+def _lemma_segmented_flow(kind, resolution, x0, y0, w, h):
+    m = repo(GEOM)
+    log = []
+
+    class G:
+        is_empty = False
+
+        @property
+        def bounds(self):
+            return (x0, y0, x0 + w, y0 + h)
+
+    class Point(G):
+        geom_type = "Point"
+
+        def __init__(self, tag):
+            self.tag = tag
+
+    class MultiPoint(G):
+        geom_type = "MultiPoint"
+
+        def __init__(self, tag):
+            self.tag = tag
+
+    class LineString(G):
+        geom_type = "LineString"
+
+        def __init__(self, coords):
+            self.coords = coords
+
+    class LinearRing(LineString):
+        geom_type = "LinearRing"
+
+    class Polygon(G):
+        geom_type = "Polygon"
+
+        def __init__(self, exterior, interiors=()):
+            self.exterior = exterior if isinstance(exterior, LinearRing) else LinearRing(exterior)
+            self.interiors = [i if isinstance(i, LinearRing) else LinearRing(i) for i in interiors]
+
+    class _Multi(G):
+        def __init__(self, parts):
+            self.geoms = list(parts)
+
+    class MultiPolygon(_Multi):
+        geom_type = "MultiPolygon"
+
+    class MultiLineString(_Multi):
+        geom_type = "MultiLineString"
+
+    class GeometryCollection(_Multi):
+        geom_type = "GeometryCollection"
+
+    class GhostShapely:
+        pass
+
+    GhostShapely.Polygon = Polygon
+
+    def g_densify(coords, res):
+        log.append((tuple(coords), res))
+        return ["densified", tuple(coords), res]
+
+    def g_clone(g):
+        return ("clone", g)
+
+    ring = lambda t: [t + ".a", t + ".b", t + ".c", t + ".a"]
+    poly = lambda t, holes=0: Polygon(ring(t + ".ext"), [ring(f"{t}.hole{k}") for k in range(holes)])
+    shapes = {
+        "point": lambda: Point("p"),
+        "multipoint": lambda: MultiPoint("mp"),
+        "line": lambda: LineString(["l.a", "l.b", "l.c"]),
+        "ring": lambda: LinearRing(ring("r")),
+        "polygon": lambda: poly("P"),
+        "polygon+2holes": lambda: poly("P", 2),
+        "multiline": lambda: MultiLineString([LineString(["l1.a", "l1.b"]), LineString(["l2.a", "l2.b", "l2.c"])]),
+        "multipolygon": lambda: MultiPolygon([poly("P1", 1), poly("P2")]),
+        "collection": lambda: GeometryCollection([Point("p"), LineString(["l.a", "l.b"]), MultiPolygon([poly("Q", 1)]), poly("P")]),
+    }
+    geom = shapes[kind]()
+    me = object.__new__(m.Geometry)
+    me.geom, me.crs = geom, "CRS-TAG"
+    saved = (m.Geometry, m.densify, m._clone_shapely_geom, m.geometry)
+    real_cls = m.Geometry
+    try:
+        m.Geometry = lambda g, crs=None: ("Geometry", g, crs)
+        m.densify, m._clone_shapely_geom, m.geometry = g_densify, g_clone, GhostShapely
+        out = real_cls.segmented(me, resolution)
+    finally:
+        m.Geometry, m.densify, m._clone_shapely_geom, m.geometry = saved
+
+    def lines_of(g):
+        if isinstance(g, (Point, MultiPoint)):
+            return []
+        if isinstance(g, Polygon):
+            return [tuple(g.exterior.coords)] + [tuple(i.coords) for i in g.interiors]
+        if isinstance(g, LineString):
+            return [tuple(g.coords)]
+        return [c for p in g.geoms for c in lines_of(p)]
+
+    def same_structure(a, b):
+        """b is a with every coordinate list replaced by its densification"""
+        if isinstance(a, (Point, MultiPoint)):
+            return b == ("clone", a)
+        if type(a) is not type(b):
+            return False
+        if isinstance(a, Polygon):
+            return same_structure(a.exterior, b.exterior) and len(a.interiors) == len(b.interiors) and all(same_structure(x, y) for x, y in zip(a.interiors, b.interiors))
+        if isinstance(a, LineString):
+            return b.coords == ["densified", tuple(a.coords), resolution]
+        return len(a.geoms) == len(b.geoms) and all(same_structure(x, y) for x, y in zip(a.geoms, b.geoms))
+
+    claim(isinstance(out, tuple) and out[0] == "Geometry" and out[2] == "CRS-TAG", "a new Geometry with the receiver's CRS")
+    want = lines_of(geom)
+    claim(sorted(c for c, _ in log) == sorted(want), "every line, ring and hole of every part is densified exactly once -- whatever the geometry's extent relative to the resolution")
+    claim(all(r is resolution for _, r in log), "... with the requested resolution")
+    claim(same_structure(geom, out[1]), "the result has the same structure with each coordinate list replaced by its densification; points are cloned unchanged")
+
+
+lemma(
+    "segmented.every_part_densified",
+    ["C07"],
+    inputs=dict(kind=OneOf("point", "multipoint", "line", "ring", "polygon", "polygon+2holes", "multiline", "multipolygon", "collection"), resolution=Real(gt=0), x0=Real(), y0=Real(), w=Real(ge=0), h=Real(ge=0)),
+    body=_lemma_segmented_flow,
+    unstub=[f"{GEOM}:Geometry.segmented"],
+    note="data flow of the real Geometry.segmented over stand-in shapely geometries (every kind, nested collections) of ANY extent and any resolution, with densify recorded (densify itself is proved above)",
+)
